@@ -164,7 +164,7 @@ def trace_part(prop, insts, V, workdir, samples=3, nproc=None):
                 seen.add("c19first")
             if V.report(dict(clause=clause, site=evname, cls=cfg_class(byid[tid]), retflag="%s/%s" % (evt.get("flag"), evt.get("msgc")),
                              hasproj="yes" if byid[tid].get("proj") else "no", dyksite=str(evt.get("site", "")), exc=("%s: %s" % (evt.get("type"), str(evt.get("text"))[:60])) if evname == "Raise" else "",
-                             retnx=str(evt.get("nx", "")), initrepair=str(t["summary"].get("initrepair", "")), pclass=str(byid[tid].get("pclass", "")), growsafety=str(t["summary"].get("growsafety", "no")), averaging="yes" if byid[tid].get("nsamples", "1") != "1" else "no", what="trace %d event %d (%s): clause %s false" % (tid, l, evname, clause),
+                             retnx=str(evt.get("nx", "")), initrepair=str(t["summary"].get("initrepair", "")), pclass=str(byid[tid].get("pclass", "")), growsafety=str(t["summary"].get("growsafety", "no")), growover=_growover(byid[tid]), averaging="yes" if byid[tid].get("nsamples", "1") != "1" else "no", what="trace %d event %d (%s): clause %s false" % (tid, l, evname, clause),
                              instance=dict(kind="solver", inst=byid[tid]), window=win, cfg=t["cfg"])):
                 nviol += 1
     outcomes, classes, counts = {}, set(), {}
@@ -231,6 +231,15 @@ def ref_nf(inst):
     if "machinery" in t:
         raise vlib.MachineryError(t["machinery"])
     return int(t["summary"].get("nf") or sum(1 for e in t["ev"] if e["ev"] == "Call"))
+
+
+def _growover(inst):
+    """the set is grown direction by direction (growing.ndirs_initial) towards MORE than n+1 points: new directions are asked for after n exist"""
+    if not inst.get("growing") or not inst.get("npt"):
+        return "no"
+    n = int(inst["n"])
+    npt = {"n+1": n + 1, "2n+1": 2 * n + 1, "mid": n + 1 + max(1, n // 2), "n+2": n + 2, "full": (n + 1) * (n + 2) // 2}[inst["npt"]] if isinstance(inst["npt"], str) else int(inst["npt"])
+    return "yes" if npt > n + 1 else "no"
 
 
 def corpus_C02(tier):
